@@ -6,7 +6,7 @@ CFG = {
                           "RpmVerif.C16.empty_wf", "RpmVerif.C16.clear_eq_empty", "RpmVerif.C16.write_empty", "RpmVerif.C16.parse_write_empty",
                           "RpmVerif.C16.offsets_new_empty", "RpmVerif.C16.offsets_cleared",
                           "RpmVerif.C16.size_rest_fits_u64", "RpmVerif.C16.header_size_fits", "RpmVerif.C16.padding_fits", "RpmVerif.C16.offsets_steps_fit",
-                          "RpmVerif.C16.offsets_locate_input", "RpmVerif.C16.offsets_locate_input_sig", "RpmVerif.C16.offsets_of_parsed"],
+                          "RpmVerif.C16.offsets_locate_input", "RpmVerif.C16.offsets_locate_input_sig", "RpmVerif.C16.digest_ranges_are_offsets", "RpmVerif.C16.offsets_of_parsed"],
     "trivial_branches": ["rejected"],
     "rule": "asset + fixture packages; hand-encoded signature headers with 0..40 entries × store slack 0..7 (all sizes mod 8) × random main headers; "
             "seeded structure-aware packages; offbig16: up to 2^20 NULL entries / 100 kB stores in the MAIN or the signature header; thorough adds ~4 GiB stores in either header and "
